@@ -542,7 +542,7 @@ time.sleep(40)
 HARNESS_SH = r'''#!/bin/sh
 # benchmark harness: <dir> <benchmark>; behaviour from <dir>/<benchmark>.plan: "<mode> <depth> <fanout>"
 DIR="$1"; B="$2"
-read MODE D F PY K L < "$DIR/$B.plan"
+read MODE D F PY K L BAD < "$DIR/$B.plan"
 LOG="$DIR/$B.log"
 if [ "$MODE" = "hangat" ]; then
   # hang in the K-th invocation only: the earlier ones end normally (the signal then arrives while a later
@@ -555,6 +555,10 @@ if [ "$MODE" = "hangat" ]; then
 fi
 echo "start $$ $PPID" >> "$LOG"
 echo "$B: iterations=1 runtime: 111ms"
+if [ "$BAD" = "1" ] && [ "$MODE" != "hang" ]; then
+  # output that is not UTF-8 (a binary progress bar, a Latin-1 name): it must not disturb anything
+  printf 'caf\351 \377\376 \200\n'
+fi
 # a burst of output right away (L data points): it is in the pipe long before ReBench reads it
 j=0
 while [ "$j" -lt "${L:-0}" ]; do echo "$B: iterations=1 runtime: ${j}ms"; j=$((j+1)); done
@@ -569,6 +573,11 @@ if [ "$MODE" = "hang" ]; then
     "$PY" "$DIR/forker.py" "$LOG" > /dev/null 2>&1 &
   fi
   echo "spawned" >> "$LOG"
+  if [ "$BAD" = "1" ]; then
+    # ... also from a process that then runs into the deadline, with its tree already started
+    /bin/sleep 0.3
+    printf 'caf\351 \377\376 \200\n'
+  fi
   /bin/sleep 40
   echo "$B: iterations=2 runtime: 222ms"
   echo "late" >> "$LOG"
@@ -643,7 +652,7 @@ def session_members(sid):
 class RealSession(object):
     """one real `rebench` CLI process in its own session"""
 
-    def __init__(self, wd, conf, extra_args=(), popen_delay=0):
+    def __init__(self, wd, conf, extra_args=(), popen_delay=0, sigint_ignored=False):
         code = ('import sys; sys.path.insert(0, %r); from rebench.rebench import main_func; sys.exit(main_func())'
                 % lib.REPO)
         if popen_delay:
@@ -656,8 +665,10 @@ class RealSession(object):
                     'from rebench.rebench import main_func; sys.exit(main_func())' % (lib.REPO, popen_delay))
         env = {'PATH': '/usr/bin:/bin', 'PYTHONHASHSEED': '0', 'PYTHONDONTWRITEBYTECODE': '1', 'HOME': wd}
         self.out = open(os.path.join(wd, 'rebench.out'), 'w')
+        # `sigint_ignored`: started like `cmd &` from a shell without job control, which leaves SIGINT ignored
         self.proc = subprocess.Popen([sys.executable, '-c', code, '-D'] + list(extra_args) + [conf], cwd=wd, env=env,
-                                     stdout=self.out, stderr=subprocess.STDOUT, start_new_session=True)
+                                     stdout=self.out, stderr=subprocess.STDOUT, start_new_session=True,
+                                     preexec_fn=(lambda: signal.signal(signal.SIGINT, signal.SIG_IGN)) if sigint_ignored else None)
         self.pid = self.proc.pid
 
     def signal(self, sig):
@@ -735,7 +746,8 @@ def wait_until(pred, timeout, step=0.02):
     return pred()
 
 
-def write_real_scenario(wd, benchmarks, limit, ignore_timeouts, invocations=1, forker=False, lines=0, exclusive=True):
+def write_real_scenario(wd, benchmarks, limit, ignore_timeouts, invocations=1, forker=False, lines=0, exclusive=True,
+                        bad_bytes=False):
     """benchmarks: list of (name, mode, depth, fanout)"""
     with open(os.path.join(wd, 'node.sh'), 'w') as f:
         f.write(NODE_SH)
@@ -745,8 +757,8 @@ def write_real_scenario(wd, benchmarks, limit, ignore_timeouts, invocations=1, f
         f.write(FORKER_PY)
     for (b, mode, d, fo) in benchmarks:
         with open(os.path.join(wd, b + '.plan'), 'w') as f:
-            f.write('%s %d %d %s %d %d\n' % (mode, d, fo, sys.executable if (forker and mode != 'normal') else '0',
-                                             invocations, lines))
+            f.write('%s %d %d %s %d %d %d\n' % (mode, d, fo, sys.executable if (forker and mode != 'normal') else '0',
+                                                invocations, lines, 1 if bad_bytes else 0))
     suite = {'gauge_adapter': 'RebenchLog', 'command': '%s/harness.sh %s %%(benchmark)s' % (wd, wd),
              'benchmarks': [b for (b, _m, _d, _f) in benchmarks], 'max_invocation_time': limit,
              'ignore_timeouts': bool(ignore_timeouts)}
